@@ -4,7 +4,9 @@
      cfg                                   → the constants the model runs with
      causes                                → [[status, value] …] for every valid Cause (Spec)
      decode  {lo, hi}                      → model `decode` of every status word in [lo, hi)
-     wait    {env, pid, timeout, start, fuel, nwait0?, obs?}        `_psposix.wait_pid`
+     wait    {env, pid, timeout, start, fuel, nwait0?, obs?}        `_psposix.wait_pid`; pid is an INTEGER (third
+             round: −1 etc. are asked about; model = `waitPidI`); spec also carries model_full / impl_full =
+             clauses violated at FULL strength over the stated quantifier (neverExistedAtOnce under EINTR)
      pwait   {env, pid, fuel, cached0?, calls:[{timeout, at, obs?}]} `Process.wait`, several calls
      wprocs  {procs:[{pid, env, prewait?}], list, timeout, start, hasCb, cb?, flat, fuel, obs?}
              cb = "none" | "callable" | "bad" (overrides hasCb): the argument checks in front of the loops
@@ -21,6 +23,7 @@
 import PsutilModel.Base.Proto
 import PsutilModel.Model.C15Gen
 import PsutilModel.Model.C15R2
+import PsutilModel.Model.C15R3
 import PsutilModel.Spec.C15
 open Lean Psutil Psutil.Proto Psutil.C15
 
@@ -102,21 +105,31 @@ def handleWait (j : Json) : R Json := do
   let envJ ← field j "env"
   let env ← asEnv envJ
   let clean0 ← eintrFree envJ
-  let pid ← natF j "pid"
+  let pidI ← intF j "pid"
+  let pid := pidI.toNat
   let timeout ← optRatF j "timeout"
   let start ← ratF j "start"
   let fuel ← natF j "fuel"
   let nwait0 := (← optF asNat j "nwait0").getD 0
-  let (o, s) := waitPid cfg env pid timeout fuel start nwait0
+  -- the integer-pid model: the pid test is the one the translator found (facts pidRejects*)
+  let (o, s) := waitPidI cfg env pidI timeout fuel start nwait0
   let ask : Spec.Ask := ⟨env, pid, timeout, start⟩
-  let clean := clean0 && decide (0 < pid) && !(negative timeout)
+  let clean := clean0 && decide (0 < pidI) && !(negative timeout)
+  let valid := decide (0 < pidI) && !(negative timeout)
   let mobs : Spec.Obs := ⟨o, s.now, s.sleeps⟩
-  let implV ← (optF asObs j "obs")
-  let implV := implV.map fun ob => Spec.violations ask ob clean ++ Spec.extraViolations ask ob
+  let judge (ob : Spec.Obs) : List String :=
+    (if Spec.nonPositivePidRefused pidI start ob then [] else ["nonPositivePidRefused"]) ++
+    (if pidI < 0 then [] else Spec.violations ask ob clean ++ Spec.extraViolations ask ob)
+  -- clauses at FULL strength over the stated quantifier (EINTR on any call): reported separately
+  let full (ob : Spec.Obs) : List String :=
+    if pidI < 0 then [] else
+    (if Spec.neverExistedAtOnce ask ob valid then [] else ["neverExistedAtOnce"])
+  let implO ← (optF asObs j "obs")
   return jObj [
     ("model", jObj [("out", jOutcome o), ("ret", jRat s.now), ("sleeps", jList jRat s.sleeps),
                     ("nwait", jNat (s.nWait - nwait0))]),
-    ("spec", specPart (Spec.violations ask mobs clean ++ Spec.extraViolations ask mobs) implV)]
+    ("spec", jObj [("model_violations", jStrs (judge mobs)), ("impl_violations", jOpt jStrs (implO.map judge)),
+                   ("model_full", jStrs (full mobs)), ("impl_full", jOpt jStrs (implO.map full))])]
 
 def handleWaitC (j : Json) : R Json := do
   let envJ ← field j "env"
@@ -156,7 +169,7 @@ def runPCalls (env : Env) (clean0 : Bool) (fuel : Nat) :
     List PCall → PObj → Option Outcome → Option Outcome → List Json → List Json
   | [], _, _, _, acc => acc.reverse
   | c :: cs, p, firstM, firstI, acc =>
-    let r := procWait cfg env c.timeout fuel c.at_ p
+    let r := procWaitI cfg env c.timeout fuel c.at_ p
     let ask : Spec.Ask := ⟨env, p.pid, c.timeout, c.at_⟩
     let clean := clean0 && decide (0 < p.pid) && !(negative c.timeout)
     let mobs : Spec.Obs := ⟨r.out, r.now, r.sleeps⟩
@@ -312,6 +325,20 @@ def asWPObs (j : Json) : R Spec.WPObs := do
   pure { gone := gone, alive := alive, returncode := fun p => (rcs.lookup p).getD none,
          cbLog := cb, ret := ret }
 
+/-- what the implementation's callback saw: [[pid, null | {v}, inGone], …] -/
+def asSeen (j : Json) : R (List CbView) :=
+  listF (fun e => do
+      match e.getArr? with
+      | .ok #[p, v, g] => do
+        let p ← asNat p
+        let v ← asOpt asVal v
+        let g ← asBool g
+        pure (⟨p, v, g⟩ : CbView)
+      | _ => .error "cbSeen entry must be [pid, null|{v}, bool]") j "cbSeen"
+
+def jSeen (l : List CbView) : Json :=
+  jList (fun (e : CbView) => Json.arr #[jNat e.pid, jOptVal e.rc, Json.bool e.inGone]) l
+
 def handleWProcs (j : Json) : R Json := do
   let ps ← listF asPSpec j "procs"
   let lst ← listF asNat j "list"
@@ -342,7 +369,7 @@ def handleWProcs (j : Json) : R Json := do
     | none => false
   let objs : Nat → PObj := fun pid => (qOf pid).proc
   let sub0 : Nat → Option (Option Int) := fun pid => cond (isPopen pid) (some (qOf pid).subRc) none
-  let w0 : WP := ⟨start, objs, [], [], [], []⟩
+  let w0 : WP := ⟨start, objs, [], [], [], [], []⟩
   let m0 : WPM := ⟨w0, sub0⟩
   let hashable := (← optF asBool j "hashable").getD true
   let oids := (← optF (asList asNat) j "oids").getD (lst.map fun _ => 0)
@@ -352,7 +379,13 @@ def handleWProcs (j : Json) : R Json := do
   let cleanOf : Nat → Bool := fun pid => match ps.find? (·.pid == pid) with
     | some p => p.clean
     | none => false
-  let implV := implV.map fun ob => Spec.wpViolations ask ob cleanOf
+  let implObsJ ← optF pure j "obs"
+  let implSeen ← (match implObsJ with
+    | some oj => (asSeen oj).map some
+    | none => pure none)
+  let seesV (seen : List CbView) (log : List Nat) : List String :=
+    if Spec.callbackSees ask seen log then [] else ["callbackSees"]
+  let implV := implV.map fun ob => Spec.wpViolations ask ob cleanOf ++ seesV (implSeen.getD []) ob.cbLog
   let refusal := Spec.wpRefusalM timeout hashable (cb != .absent) (cb == .callable)
   let specJ (mV : List String) : Json :=
     jObj [("model_violations", jStrs mV), ("impl_violations", jOpt jStrs implV), ("refusal", jRefusal refusal)]
@@ -367,11 +400,11 @@ def handleWProcs (j : Json) : R Json := do
     return jObj [
       ("model", jObj [("kind", "ok"), ("gone", jList jNat w.gone), ("alive", jList jNat alive),
         ("returncodes", jList (fun p => Json.arr #[jNat p, jOptVal (w.objs p).returncode]) pids),
-        ("cbLog", jList jNat w.cbLog), ("ret", jRat w.now), ("sleeps", jList jRat w.sleeps),
+        ("cbLog", jList jNat w.cbLog), ("cbSeen", jSeen w.cbSeen), ("ret", jRat w.now), ("sleeps", jList jRat w.sleeps),
         ("calls", jList (fun c => Json.arr #[jNat c.1, jRat c.2]) w.calls),
         ("subs", jList (fun p => Json.arr #[jNat p, jOptVal (m.sub p)]) (pids.filter isPopen)),
         ("survivors", jList (fun (x : Item) => Json.arr #[jNat x.pid, jNat x.oid]) (setOf items))]),
-      ("spec", specJ (Spec.wpViolations ask mobs cleanOf))]
+      ("spec", specJ (Spec.wpViolations ask mobs cleanOf ++ seesV w.cbSeen w.cbLog))]
 
 def handle (_ : Unit) (j : Json) : R (Unit × Json) := do
   let op ← strF j "op"
@@ -381,7 +414,11 @@ def handle (_ : Unit) (j : Json) : R (Unit × Json) := do
       ("validateNonNeg", Json.bool cfg.validateNonNeg), ("sliceN", jNat cfg.sliceN),
       ("pidCheck", Json.bool cfg.pidCheck), ("cbCheck", Json.bool cfg.cbCheck),
       ("popenRcFirst", Json.bool cfg.popenRcFirst), ("popenStoresRc", Json.bool cfg.popenStoresRc),
-      ("popenValidateFirst", Json.bool cfg.popenValidateFirst)])
+      ("popenValidateFirst", Json.bool cfg.popenValidateFirst),
+      ("pidRejectsZero", Json.bool cfg.pidRejectsZero), ("pidRejectsNeg", Json.bool cfg.pidRejectsNeg),
+      ("pidRejectsPos", Json.bool cfg.pidRejectsPos), ("flagsTimeout", jNat cfg.flagsTimeout),
+      ("flagsBlocking", jNat cfg.flagsBlocking), ("rcBeforeCb", Json.bool cfg.rcBeforeCb),
+      ("goneBeforeCb", Json.bool cfg.goneBeforeCb)])
   else if op == "causes" then
     return ((), jList (fun c => Json.arr #[jNat c.status, jInt c.value]) Spec.allCauses)
   else if op == "decode" then
